@@ -246,6 +246,43 @@ EXT2_MUL_PROOF = r"""
             assert((a0 + a1) * (b0 + b1) - a0 * b0 == a0 * b1 + a1 * b0 + a1 * b1) by (nonlinear_arith);
         }"""
 
+EXT3_EXTRA = r"""
+    open spec fn wf_x(a: [BaseElement; 3]) -> bool { wf(a[0]) && wf(a[1]) && wf(a[2]) }
+    open spec fn wf_b(b: BaseElement) -> bool { wf(b) }
+"""
+EXT3_MUL_PROOF = r"""
+        proof {
+            use vstd::arithmetic::div_mod::*;
+            let (a0, a1, a2, b0, b1, b2) = (val(a[0]), val(a[1]), val(a[2]), val(b[0]), val(b[1]), val(b[2]));
+            let (e00, e11, e22) = (a0 * b0, a1 * b1, a2 * b2);
+            let m01 = (a0 + a1) * (b0 + b1);
+            let m02 = (a0 + a2) * (b0 + b2);
+            let m12 = (a1 + a2) * (b1 + b2);
+            // expand the products of sums once; afterwards every identity is linear in the a_i * b_j
+            assert(m01 == a0 * b0 + a0 * b1 + a1 * b0 + a1 * b1) by (nonlinear_arith) requires m01 == (a0 + a1) * (b0 + b1);
+            assert(m02 == a0 * b0 + a0 * b2 + a2 * b0 + a2 * b2) by (nonlinear_arith) requires m02 == (a0 + a2) * (b0 + b2);
+            assert(m12 == a1 * b1 + a1 * b2 + a2 * b1 + a2 * b2) by (nonlinear_arith) requires m12 == (a1 + a2) * (b1 + b2);
+            // the three Karatsuba-style products of sums
+            lemma_mul_mod_noop(a0 + a1, b0 + b1, P());
+            lemma_mul_mod_noop(a0 + a2, b0 + b2, P());
+            lemma_mul_mod_noop(a1 + a2, b1 + b2, P());
+            // a0b0 - a1b1
+            lemma_sub_mod_noop(e00, e11, P());
+            // r0 = m12 + (e00 - e11) - e22
+            lemma_add_mod_noop(m12, e00 - e11, P());
+            lemma_sub_mod_noop(m12 + (e00 - e11), e22, P());
+            assert(m12 + (e00 - e11) - e22 == a0 * b0 + a1 * b2 + a2 * b1);
+            // r1 = m01 + m12 - 2 e11 - e00
+            lemma_mul_mod_noop_right(2, e11, P());
+            lemma_add_mod_noop(m01, m12, P());
+            lemma_sub_mod_noop(m01 + m12, 2 * e11, P());
+            lemma_sub_mod_noop(m01 + m12 - 2 * e11, e00, P());
+            assert(m01 + m12 - 2 * e11 - e00 == a0 * b1 + a1 * b0 + a1 * b2 + a2 * b1 + a2 * b2);
+            // r2 = m02 - (e00 - e11)
+            lemma_sub_mod_noop(m02, e00 - e11, P());
+            assert(m02 - (e00 - e11) == a0 * b2 + a1 * b1 + a2 * b0 + a2 * b2);
+        }"""
+
 EPILOGUE = r'''
 // the extracted constants are the documented ones
 proof fn thm_constants()
@@ -383,6 +420,18 @@ UNIT = {
              "ghost": [{"at": "start", "text": EXT2_MUL_PROOF}]},
             {"name": "mul_base", "ret": "r", "fnlabel": "f64 <BaseElement as ExtensibleField<2>>::mul_base", "ob": "C10.f64.ext2.mul_base.contract",
              "spec": "ensures wf(r[0]), wf(r[1]), val(r[0]) == (val(a[0]) * val(b)) % P(), val(r[1]) == (val(a[1]) * val(b)) % P(),"},
+        ]},
+
+        {"kind": "impl", "file": F, "header": "impl ExtensibleField<3> for BaseElement", "extra": EXT3_EXTRA, "methods": [
+            {"name": "mul", "ret": "r", "fnlabel": "f64 <BaseElement as ExtensibleField<3>>::mul", "ob": "C10.f64.ext3.mul.contract",
+             "spec": "ensures wf(r[0]), wf(r[1]), wf(r[2]),\n"
+                     "    // (a0 + a1 phi + a2 phi^2)(b0 + b1 phi + b2 phi^2) with phi^3 = phi + 1\n"
+                     "    val(r[0]) == (val(a[0]) * val(b[0]) + val(a[1]) * val(b[2]) + val(a[2]) * val(b[1])) % P(),\n"
+                     "    val(r[1]) == (val(a[0]) * val(b[1]) + val(a[1]) * val(b[0]) + val(a[1]) * val(b[2]) + val(a[2]) * val(b[1]) + val(a[2]) * val(b[2])) % P(),\n"
+                     "    val(r[2]) == (val(a[0]) * val(b[2]) + val(a[1]) * val(b[1]) + val(a[2]) * val(b[0]) + val(a[2]) * val(b[2])) % P(),",
+             "ghost": [{"at": "start", "text": EXT3_MUL_PROOF}]},
+            {"name": "mul_base", "ret": "r", "fnlabel": "f64 <BaseElement as ExtensibleField<3>>::mul_base", "ob": "C10.f64.ext3.mul_base.contract",
+             "spec": "ensures wf(r[0]), wf(r[1]), wf(r[2]), val(r[0]) == (val(a[0]) * val(b)) % P(), val(r[1]) == (val(a[1]) * val(b)) % P(), val(r[2]) == (val(a[2]) * val(b)) % P(),"},
         ]},
     ],
     "epilogue": EPILOGUE,
